@@ -626,6 +626,47 @@ def run(ctx):
         ctx.violation(f'annotation-dependent:{last}', f'`{ts}` vs the same program without annotations: {what}',
                       {'program': ts, 'program_without_annotations': tz, 'annotated_result': repr(os_)[:600], 'unannotated_result': repr(oz)[:600]})
 
+    # ================================================================= positional Python objects
+    # a flat right comb of atoms given as a Python TUPLE: which component a tuple position feeds is decided by the position,
+    # whatever subset of the components carries %field / :type annotations (names of fields may depend on annotations, places may not)
+    from pytezos.michelson.types.base import MichelsonType as _MT
+    atom_py = {'nat': lambda: rng.choice([0, 1, 7, 2 ** 64]), 'int': lambda: rng.choice([0, -1, 5, -2 ** 70]),
+               'string': lambda: rng.choice(['', 'a', 'Zb 9']), 'bool': lambda: rng.random() < 0.5, 'mutez': lambda: rng.choice([0, 1, 10 ** 6])}
+    n_pos, pos_bad = (300 if quick else 6000), None
+    for _ in range(n_pos):
+        m = rng.randrange(2, 7)
+        atoms = [rng.choice(sorted(atom_py)) for _ in range(m)]
+        vals = tuple(atom_py[a]() for a in atoms)
+
+        def comb(leaves):
+            t = leaves[-1]
+            for x in reversed(leaves[:-1]):
+                t = {'prim': 'pair', 'args': [x, t]}
+            return t
+        plain_t = comb([{'prim': a} for a in atoms])
+        ann_leaves = [G.annotate(rng, (a,), rng.choice([0.0, 0.5, 1.0]), True, False) for a in atoms]
+        if rng.random() < 0.3 and m >= 3:      # the same name twice / a name next to an unnamed component
+            j = rng.randrange(m - 1)
+            if ann_leaves[j].get('annots'):
+                ann_leaves[j + 1] = dict(ann_leaves[j + 1], annots=list(ann_leaves[j]['annots']))
+        ann_t = comb(ann_leaves)
+        ctx.case({'stream': 'python-tuple', 'type': mich.to_line(ann_t)[:200], 'values': repr(vals)[:120]}, nontrivial=any(x.get('annots') for x in ann_leaves))
+        ctx.count('op', 'from_python_object(tuple)')
+
+        def conv(t):
+            try:
+                return json.dumps(mich.normalize(_MT.match(t).from_python_object(vals).to_micheline_value(mode='optimized')), sort_keys=True)
+            except Exception as e:      # noqa: BLE001
+                return f'raise {type(e).__name__}'
+        a, b = conv(ann_t), conv(plain_t)
+        if a != b and (pos_bad is None or len(atoms) < len(pos_bad[0])):
+            pos_bad = (atoms, vals, ann_t, a, b)
+    if pos_bad is not None:
+        atoms, vals, ann_t, a, b = pos_bad
+        ctx.violation('annotation-dependent:from_python_object(tuple)',
+                      f'{vals!r} as a value of `{_show(ann_t)}` is {a}; as a value of the same type without annotations it is {b}',
+                      {'type': ann_t, 'tuple': repr(vals), 'annotated': a, 'unannotated': b})
+
     # ================================================================= wide stream
     # every instruction form of the interpreter model (generator of C01/C02), randomly annotated, against itself without annotations
     from harness import gen_c17_wide as W
